@@ -17,6 +17,7 @@ import (
 	"strconv"
 	"strings"
 	"sync"
+	"syscall"
 	"testing"
 	"time"
 
@@ -103,7 +104,21 @@ func vfMutants(b []byte, thorough bool) []vfMutant {
 		}
 		if o+8 <= n {
 			vals := []uint64{0xFFFFFFFFFFFFFFFF, 0xFFFFFFFFFFFFFFFE, 1 << 63, 1<<63 - 1, 1 << 32, 1<<32 - 1, 1 << 31, fs, fs + 1, fs - 1, 1 << 40}
-			vals = append(vals, addrs...)
+			sel := addrs
+			if len(addrs) > 48 && !thorough {
+				// many structures (deep synthetic chain): the first and last 8 and the 8 nearest
+				// to this offset (self-reference, local cycles, jumps to either end)
+				k := sort.Search(len(addrs), func(i int) bool { return addrs[i] >= uint64(o) })
+				lo, hi := k-4, k+4
+				if lo < 0 {
+					lo = 0
+				}
+				if hi > len(addrs) {
+					hi = len(addrs)
+				}
+				sel = append(append(append([]uint64{}, addrs[:8]...), addrs[lo:hi]...), addrs[len(addrs)-8:]...)
+			}
+			vals = append(vals, sel...)
 			if thorough {
 				for _, a := range addrs {
 					vals = append(vals, a+1, a-1)
@@ -228,6 +243,8 @@ type vfC07Job struct {
 	Thorough bool   `json:"thorough"`
 	Scratch  string `json:"scratch"`
 	Single   int    `json:"single"` // >=0: run only this mutant, with allocation profiling
+	Deadline int64  `json:"deadline"` // unix seconds after which the worker stops (0: none)
+	CPUMs    int64  `json:"cpu_ms"`   // CPU time one mutant may use (0: no limit)
 }
 
 // TestVerif_C07Worker is the worker side (re-executed test binary).
@@ -263,12 +280,18 @@ func TestVerif_C07Worker(t *testing.T) {
 		before := ms.TotalAlloc
 		stageName, stageStart := "Open", before
 		worstStage, worstDelta := "Open", uint64(0)
+		cpu0 := vfCPUms()
+		cpuStageStart, cpuWorstStage, cpuWorst := cpu0, "Open", int64(0)
 		vfC07Stage = func(name string) {
 			runtime.ReadMemStats(&ms)
 			if d := ms.TotalAlloc - stageStart; d > worstDelta {
 				worstStage, worstDelta = stageName, d
 			}
-			stageName, stageStart = name, ms.TotalAlloc
+			now := vfCPUms()
+			if d := now - cpuStageStart; d > cpuWorst {
+				cpuWorstStage, cpuWorst = stageName, d
+			}
+			stageName, stageStart, cpuStageStart = name, ms.TotalAlloc, now
 		}
 		func() {
 			defer func() {
@@ -287,6 +310,9 @@ func TestVerif_C07Worker(t *testing.T) {
 		vfC07Stage = nil
 		if d := ms.TotalAlloc - before; d > job.Budget {
 			return "alloc", worstStage + "|" + strconv.FormatUint(d, 10)
+		}
+		if d := vfCPUms() - cpu0; job.CPUMs > 0 && d > job.CPUMs {
+			return "cpu", cpuWorstStage + "|" + strconv.FormatInt(d, 10)
 		}
 		return "", ""
 	}
@@ -330,6 +356,10 @@ func TestVerif_C07Worker(t *testing.T) {
 		return
 	}
 	for i := job.From; i < job.To && i < len(muts); i++ {
+		if job.Deadline > 0 && time.Now().Unix() > job.Deadline {
+			fmt.Fprintf(out, "X %d\n", i)
+			return
+		}
 		fmt.Fprintf(out, "M %d\n", i)
 		out.Flush()
 		if v, d := run(i); v != "" {
@@ -350,8 +380,31 @@ func TestVerif_C07(t *testing.T) {
 		nCorpus, maxSize = 20, 16384
 	}
 	bases = append(bases, vfCorpusBaseFiles(nCorpus, maxSize)...)
+	// synthetic base: a chain of nested old-style groups as the reference library lays them
+	// out (cached symbol-table entries); a deviation near the bottom must not cost more than
+	// one near the top (work that multiplies per nesting level becomes a hang at this depth)
+	{
+		img := vfDeepChainFile(30)
+		p := filepath.Join(dir, "chain.h5")
+		os.WriteFile(p, img, 0o644)
+		tr, err := vfDumpFile(p)
+		depth := 0
+		if tr != nil {
+			for q := range tr.Objs {
+				if n := strings.Count(q, "/g"); n > depth {
+					depth = n
+				}
+			}
+		}
+		if err != nil || depth != 30 {
+			r.Fail("synthetic-chain/intact-file-not-read-to-the-bottom", map[string]any{"error": fmt.Sprint(err), "levels_listed": depth})
+		} else {
+			bases = append(bases, vfBaseFile{"synth-sb0-cached-stab-chain-30", img, tr})
+		}
+	}
 	// allocation budget: far above anything an intact read needs, far below a field-sized allocation
 	var maxIntact, maxSizeB uint64
+	var maxIntactCPU int64
 	var ms runtime.MemStats
 	for _, b := range bases {
 		p := filepath.Join(dir, "intact.h5")
@@ -359,7 +412,11 @@ func TestVerif_C07(t *testing.T) {
 		runtime.GC()
 		runtime.ReadMemStats(&ms)
 		before := ms.TotalAlloc
+		c0 := vfCPUms()
 		vfC07Drive(p)
+		if d := vfCPUms() - c0; d > maxIntactCPU {
+			maxIntactCPU = d
+		}
 		runtime.ReadMemStats(&ms)
 		if d := ms.TotalAlloc - before; d > maxIntact {
 			maxIntact = d
@@ -373,9 +430,19 @@ func TestVerif_C07(t *testing.T) {
 		budget = 16 * maxIntact
 	}
 	budget += 64 * maxSizeB
+	// work bound: the CPU time one mutant may use. An intact traversal of the largest base
+	// takes milliseconds; the limit is 10 s of CPU time or 2000 times the slowest intact
+	// traversal, whichever is larger (CPU time, not wall time: a loaded machine does not
+	// inflate it).
+	cpuLimitMs := int64(10000)
+	if 2000*maxIntactCPU > cpuLimitMs {
+		cpuLimitMs = 2000 * maxIntactCPU
+	}
+	r.Set("intact_max_cpu_ms", maxIntactCPU)
+	r.Set("cpu_limit_ms_per_mutant", cpuLimitMs)
 	r.Set("intact_max_alloc_bytes", maxIntact)
 	r.Set("alloc_budget_bytes", budget)
-	r.Rule("base files: 6 library-written files (one per feature) and small reference-library files; mutants (one deviation each): every byte with non-zero content nearby set to each of {00,01,7F,80,FF}, and every offset read as a little-endian field of width 2/4/8 set to each boundary value (max, max-1, sign bit, 2^31, 2^32(-1), file size and file size +-1, 2^40) and, for width 8, the address of every signed structure in the file (self-reference, cycles); each mutant is opened and every read of the API is run (Walk, Info, Read, ReadStrings, ReadCompound, Attributes+ReadValue, ReadSlice of the first element, full chunk iteration) in a worker subprocess under an address-space limit; verdict: terminates, no panic, no fatal error, allocation below the budget; every mutant is distinct")
+	r.Rule("base files: 6 library-written files (one per feature), small reference-library files and a synthetic chain of 30 nested old-style groups with cached symbol-table entries (for which, in the quick tier, the substituted structure addresses are the first 8, the last 8 and the 8 nearest to the offset); mutants (one deviation each): every byte with non-zero content nearby set to each of {00,01,7F,80,FF}, and every offset read as a little-endian field of width 2/4/8 set to each boundary value (max, max-1, sign bit, 2^31, 2^32(-1), file size and file size +-1, 2^40) and, for width 8, the address of every signed structure in the file (self-reference, cycles); each mutant is opened and every read of the API is run (Walk, Info, Read, ReadStrings, ReadCompound, Attributes+ReadValue, ReadSlice of the first element, full chunk iteration) in a worker subprocess under an address-space limit; verdict: terminates, no panic, no fatal error, allocation below the budget, CPU time of the mutant below the work bound; every mutant is distinct")
 	r.Assume("a hang is declared only after a mutant made no progress for 20 s and again for 60 s when re-run alone (an intact traversal takes milliseconds)")
 
 	type fileJob struct {
@@ -416,6 +483,7 @@ func TestVerif_C07(t *testing.T) {
 	}
 	var mu sync.Mutex
 	done := 0
+	profiled := map[string]int{}
 	report := func(fj fileJob, idx int, verdict, detail string) {
 		muts := vfMutants(fj.base.bytes, r.Thorough())
 		m := muts[idx]
@@ -436,8 +504,15 @@ func TestVerif_C07(t *testing.T) {
 			// keyed by the API stage that allocated most (deterministic); the allocating
 			// function from a profiled single run goes into the artefact only
 			stage := strings.SplitN(detail, "|", 2)[0]
-			site := vfC07Single(dir, fj.path, fj.base.name, idx, budget, r.Thorough())
-			d["allocating_site_from_profile"] = site
+			// the profiled re-run is informative only: at most three per key, none once the
+			// time budget is used up
+			mu.Lock()
+			profiled[fj.base.name+"@"+stage]++
+			doProfile := profiled[fj.base.name+"@"+stage] <= 3 && !r.Expired()
+			mu.Unlock()
+			if doProfile {
+				d["allocating_site_from_profile"] = vfC07Single(dir, fj.path, fj.base.name, idx, budget, r.Thorough())
+			}
 			// keyed by base file and API stage (both deterministic); the profiled site is
 			// informative only (attribution by profile is not stable enough for a key)
 			_ = kind
@@ -446,6 +521,9 @@ func TestVerif_C07(t *testing.T) {
 			r.Fail("fatal("+detail+")/"+kind, d)
 		case "hang":
 			r.Fail("hang/"+kind+"@"+detail, d)
+		case "cpu":
+			// keyed by base file and API stage
+			r.Fail("work-not-bounded-by-file-size/"+fj.base.name+"@"+strings.SplitN(detail, "|", 2)[0], d)
 		}
 	}
 	vkit.ParallelFor(len(slices), func(si int) {
@@ -456,9 +534,21 @@ func TestVerif_C07(t *testing.T) {
 				r.Cap("time budget")
 				return
 			}
-			last, results, finished, stderrTail, hung := vfC07RunWorker(dir, vfC07Job{Base: s.fj.base.name, File: s.fj.path, From: from, To: s.to, Budget: budget, Thorough: r.Thorough(), Scratch: dir, Single: -1}, 20*time.Second)
+			last, results, finished, stderrTail, hung := vfC07RunWorker(dir, vfC07Job{Base: s.fj.base.name, File: s.fj.path, From: from, To: s.to, Budget: budget, Thorough: r.Thorough(), Scratch: dir, Single: -1, Deadline: r.Deadline().Unix(), CPUMs: cpuLimitMs}, 20*time.Second)
+			stoppedAt := -1
 			for _, res := range results {
+				if res.verdict == "deadline" {
+					stoppedAt = res.idx
+					continue
+				}
 				report(s.fj, res.idx, res.verdict, res.detail)
+			}
+			if stoppedAt >= 0 {
+				mu.Lock()
+				done += stoppedAt - from
+				mu.Unlock()
+				r.Cap("time budget")
+				return
 			}
 			if finished {
 				mu.Lock()
@@ -473,7 +563,7 @@ func TestVerif_C07(t *testing.T) {
 			}
 			if hung {
 				// confirm alone with a longer limit
-				_, res2, fin2, err2, hung2 := vfC07RunWorker(dir, vfC07Job{Base: s.fj.base.name, File: s.fj.path, From: last, To: last + 1, Budget: budget, Thorough: r.Thorough(), Scratch: dir, Single: -1}, 60*time.Second)
+				_, res2, fin2, err2, hung2 := vfC07RunWorker(dir, vfC07Job{Base: s.fj.base.name, File: s.fj.path, From: last, To: last + 1, Budget: budget, Thorough: r.Thorough(), Scratch: dir, Single: -1, CPUMs: cpuLimitMs}, 60*time.Second)
 				switch {
 				case hung2 && !fin2:
 					report(s.fj, last, "hang", vfLastRepoFrame(stderrTail))
@@ -612,6 +702,10 @@ loop:
 				results = append(results, vfC07Res{job.Single, "single", line})
 			case line == "D":
 				finished = true
+			case strings.HasPrefix(line, "X "):
+				// the worker stopped at its deadline before mutant i
+				i, _ := strconv.Atoi(line[2:])
+				results = append(results, vfC07Res{i, "deadline", ""})
 			case strings.HasPrefix(line, "panic:") || strings.HasPrefix(line, "fatal error:") || strings.HasPrefix(line, "runtime:") || strings.HasPrefix(line, "github.com/") || strings.HasPrefix(line, "goroutine "):
 				errBuf.WriteString(line + "\n")
 			}
@@ -659,3 +753,78 @@ func vfC07Single(dir, file, base string, idx int, budget uint64, thorough bool) 
 }
 
 var _ = sort.Strings
+
+// vfDeepChainFile builds a version 0 superblock file with depth nested groups /g/g/.../g in the
+// reference library's old-style layout: version 1 object header with a Symbol Table message,
+// local heap, one B-tree leaf, one symbol table node whose single entry caches the child's
+// B-tree and heap addresses (cache type 1).
+func vfDeepChainFile(depth int) []byte {
+	le := binary.LittleEndian
+	const hdr, heap, tree, snod, sb = 40, 48, 48, 48, 96
+	const per = hdr + heap + tree + snod
+	undef := ^uint64(0)
+	levels := depth + 1
+	img := make([]byte, sb+levels*per)
+	hdrAt := func(i int) uint64 { return uint64(sb + i*per) }
+	heapAt := func(i int) uint64 { return hdrAt(i) + hdr }
+	treeAt := func(i int) uint64 { return heapAt(i) + heap }
+	snodAt := func(i int) uint64 { return treeAt(i) + tree }
+	copy(img[0:8], "\x89HDF\r\n\x1a\n")
+	img[13], img[14] = 8, 8
+	le.PutUint16(img[16:18], 4)
+	le.PutUint16(img[18:20], 16)
+	le.PutUint64(img[32:40], undef)
+	le.PutUint64(img[40:48], uint64(len(img)))
+	le.PutUint64(img[48:56], undef)
+	le.PutUint64(img[64:72], hdrAt(0))
+	le.PutUint32(img[72:76], 1)
+	le.PutUint64(img[80:88], treeAt(0))
+	le.PutUint64(img[88:96], heapAt(0))
+	for i := 0; i < levels; i++ {
+		h := img[hdrAt(i):]
+		h[0] = 1
+		le.PutUint16(h[2:4], 1)
+		le.PutUint32(h[4:8], 1)
+		le.PutUint32(h[8:12], 24)
+		le.PutUint16(h[16:18], 0x0011)
+		le.PutUint16(h[18:20], 16)
+		le.PutUint64(h[24:32], treeAt(i))
+		le.PutUint64(h[32:40], heapAt(i))
+		p := img[heapAt(i):]
+		copy(p[0:4], "HEAP")
+		le.PutUint64(p[8:16], 16)
+		le.PutUint64(p[16:24], undef)
+		le.PutUint64(p[24:32], heapAt(i)+32)
+		p[32+8] = 'g'
+		b := img[treeAt(i):]
+		copy(b[0:4], "TREE")
+		le.PutUint64(b[8:16], undef)
+		le.PutUint64(b[16:24], undef)
+		if i == levels-1 {
+			continue
+		}
+		le.PutUint16(b[6:8], 1)
+		le.PutUint64(b[32:40], snodAt(i))
+		le.PutUint64(b[40:48], 8)
+		n := img[snodAt(i):]
+		copy(n[0:4], "SNOD")
+		n[4] = 1
+		le.PutUint16(n[6:8], 1)
+		e := n[8:]
+		le.PutUint64(e[0:8], 8)
+		le.PutUint64(e[8:16], hdrAt(i+1))
+		le.PutUint32(e[16:20], 1)
+		le.PutUint64(e[24:32], treeAt(i+1))
+		le.PutUint64(e[32:40], heapAt(i+1))
+	}
+	return img
+}
+
+// vfCPUms is the CPU time (user+system) this process has used, in milliseconds.
+func vfCPUms() int64 {
+	var ru syscall.Rusage
+	if err := syscall.Getrusage(syscall.RUSAGE_SELF, &ru); err != nil {
+		return 0
+	}
+	return ru.Utime.Sec*1000 + int64(ru.Utime.Usec)/1000 + ru.Stime.Sec*1000 + int64(ru.Stime.Usec)/1000
+}
